@@ -23,6 +23,7 @@
 // are compared bitwise); every read buffer is pre-filled with sentinels.  A sequence is not extended past the first
 // step after which something is wrong.
 #include <nix.hpp>
+#include <algorithm>
 #include <cstring>
 #include <climits>
 #include <cfloat>
@@ -490,6 +491,11 @@ struct Runner {
                         if (byname) cells.push_back(Cell(S.cols[sub->cols[k]].name, to_variant(vals[k])));
                         else cells.push_back(Cell((unsigned)sub->cols[k], to_variant(vals[k])));
                     }
+                    // the same cells as a caller would also hand them over: assigned into pre-sized storage, reordered, or with
+                    // an element erased (Cell has its own swap / copy-and-swap assignment; the order of the cells is irrelevant)
+                    const int how = (st.a + st.b) % 3;
+                    if (how == 1) { std::vector<Cell> c2(cells.size()); for (size_t k = 0; k < cells.size(); k++) c2[cells.size() - 1 - k] = cells[k]; cells = c2; }
+                    else if (how == 2) { cells.insert(cells.begin(), Cell(0u, Variant())); std::reverse(cells.begin(), cells.end()); cells.erase(cells.end() - 1); if (cells.size() > 1) std::swap(cells.front(), cells.back()); }
                     df.writeCells((ndsize_t)st.a, cells);
                 };
                 apply = [&] { for (size_t k = 0; k < sub->cols.size(); k++) m.set(st.a, sub->cols[k], vals[k]); };
